@@ -649,8 +649,8 @@ class AsyncFIXConnection:
             # Remember next_num_out
             current_next_num_out = self._session.next_num_out
 
-            self._journaler.set_seq_num(self._session, next_num_out=begin_seq_no)
             try:
+                self._journaler.set_seq_num(self._session, next_num_out=begin_seq_no)
                 gap_fill_begin = int(begin_seq_no)
                 gap_fill_end = int(begin_seq_no)
 
